@@ -81,6 +81,11 @@ type Scenario struct {
 	Seed     uint64          `json:"seed"`
 	Index    int             `json:"index"`
 	Body     json.RawMessage `json:"body"`
+	// History: scenarios (by index, regenerated from Tier/Seed) executed before this one in the same process.
+	// Zygomys keeps process-global state (the type registry), so an earlier interpreter can influence a later one;
+	// a violation that needs such a history is replayed, and minimised, together with it.
+	History []int  `json:"history,omitempty"`
+	Tier    string `json:"tier,omitempty"`
 	// filled in by the runner on reported violations
 	Violation *Violation `json:"violation,omitempty"`
 	Note      string     `json:"note,omitempty"`
@@ -113,6 +118,18 @@ type Plan struct {
 }
 
 var plans = map[string]*Plan{}
+
+// Warm-up hooks run once at process start, before any scenario is generated or executed: anything a generator
+// reads from the system under test (e.g. the name universe of an interpreter) must be read from a pristine
+// process, or generation would depend on what the process has executed so far.
+var warmups []func()
+
+func RegisterWarmup(f func()) { warmups = append(warmups, f) }
+func Warmup() {
+	for _, f := range warmups {
+		f()
+	}
+}
 
 func Register(p *Plan) { plans[p.Property] = p }
 
@@ -168,7 +185,7 @@ func (p *Plan) GenScenario(tier string, seed uint64, idx int) *Scenario {
 	if err != nil {
 		panic(err)
 	}
-	return &Scenario{Property: p.Property, Part: part.Name, Seed: seed, Index: idx, Body: raw}
+	return &Scenario{Property: p.Property, Part: part.Name, Seed: seed, Index: idx, Body: raw, Tier: tier}
 }
 
 // ExecScenario runs a scenario in this process.
@@ -181,6 +198,16 @@ func ExecScenario(sc *Scenario) *Result {
 	if part == nil {
 		fmt.Fprintf(os.Stderr, "unknown part %q for %s\n", sc.Part, sc.Property)
 		os.Exit(2)
+	}
+	for _, hidx := range sc.History {
+		h := p.GenScenario(sc.Tier, sc.Seed, hidx)
+		if h == nil {
+			continue
+		}
+		if hp := p.part(h.Part); hp != nil && !hp.Isolated {
+			StepReset()
+			hp.Execute(h.Body)
+		}
 	}
 	StepReset()
 	res := part.Execute(sc.Body)
@@ -225,11 +252,16 @@ func wdEnd() {
 }
 
 // startWatchdog calls onHang(idx) (which must not return) when a scenario stalls.
-func startWatchdog(onHang func(idx int)) {
+func startWatchdog(onHang func(idx int)) { startWatchdogNote(onHang, "") }
+
+// noteFile (optional) receives the index of a scenario once it has made no VM step for 3 s: if the process then
+// dies of stack exhaustion, the runner can tell recursion inside the library (no steps) from deep script recursion.
+func startWatchdogNote(onHang func(idx int), noteFile string) {
 	limit := hangSec()
 	go func() {
 		lastSteps := int64(-1)
 		lastIdx := int64(-2)
+		noted := int64(-2)
 		var lastChange time.Time
 		for {
 			time.Sleep(500 * time.Millisecond)
@@ -244,6 +276,10 @@ func startWatchdog(onHang func(idx int)) {
 			if idx != lastIdx || steps != lastSteps {
 				lastIdx, lastSteps, lastChange = idx, steps, time.Now()
 				continue
+			}
+			if noteFile != "" && noted != idx && time.Since(lastChange) > 3*time.Second {
+				noted = idx
+				os.WriteFile(noteFile, []byte(strconv.FormatInt(idx, 10)), 0644)
 			}
 			if time.Since(st) > limit && time.Since(lastChange) > limit {
 				onHang(int(idx))
@@ -299,13 +335,13 @@ func Work(prop, tier string, seed uint64, worker, of int, from, to int, outPath 
 	}
 	self, _ := os.Executable()
 	timedOut := false
-	startWatchdog(func(idx int) {
+	startWatchdogNote(func(idx int) {
 		// the main goroutine is stuck inside the scenario and does not write: safe to write here
 		fmt.Fprintf(w, "{\"t\":\"H\",\"i\":%d}\n", idx)
 		w.Flush()
 		f.Sync()
 		os.Exit(3)
-	})
+	}, outPath+".stalled")
 	for idx := from; idx < to; idx++ {
 		if idx%of != worker {
 			continue
@@ -474,6 +510,27 @@ func Minimise(sc *Scenario, key string, maxRuns int, maxDur time.Duration) (*Sce
 	cur := *sc
 	if part.Shrink == nil {
 		return &cur, 0
+	}
+	// first the history (delta debugging over the list of earlier scenarios), then the scenario itself
+	for chunk := len(cur.History) / 2; len(cur.History) > 0 && chunk >= 1 && runs < maxRuns && time.Since(start) < maxDur; {
+		reduced := false
+		for i := 0; i+chunk <= len(cur.History) && runs < maxRuns && time.Since(start) < maxDur; {
+			c := cur
+			c.History = append(append([]int{}, cur.History[:i]...), cur.History[i+chunk:]...)
+			runs++
+			if hasKey(RunChild(&c), key) {
+				cur = c
+				reduced = true
+			} else {
+				i += chunk
+			}
+		}
+		if !reduced || chunk > len(cur.History) {
+			chunk /= 2
+		}
+		if chunk > len(cur.History)/2 && len(cur.History) > 1 {
+			chunk = len(cur.History) / 2
+		}
 	}
 	progress := true
 	for progress && runs < maxRuns && time.Since(start) < maxDur {
